@@ -70,7 +70,7 @@ pub assume_specification [std::process::exit] (code: i32) -> !
         code == 1 ==> parse_model(lexopt::env_args(), None, None, 0) is Valid;   // a failure status is never the answer to -h / -V
 pub assume_specification [std::io::stderr] () -> std::io::Stderr;
 pub assume_specification [std::io::Stderr::lock] (s: &std::io::Stderr) -> std::io::StderrLock<'static>;
-pub assume_specification [std::io::stdout] () -> std::io::Stdout;
+pub assume_specification [std::io::stdout] () -> std::io::Stdout requires !(parse_model(lexopt::env_args(), None, None, 0) == Outcome::Invalid);   // C13: an invalid command line never touches standard output
 pub assume_specification [std::io::Stdout::lock] (s: &std::io::Stdout) -> std::io::StdoutLock<'static>;
 pub assume_specification [std::io::stdin] () -> std::io::Stdin;
 pub assume_specification [std::io::Stdin::lock] (s: &std::io::Stdin) -> std::io::StdinLock<'static>;
@@ -273,7 +273,7 @@ pub assume_specification [std::ffi::OsString::into_string] (s: std::ffi::OsStrin
 #[verifier::external_body]
 const fn version_string() -> &'static str { "xt" }
 #[verifier::external_body]
-fn print_long_help() { unimplemented!() }
+fn print_long_help() requires parse_model(lexopt::env_args(), None, None, 0) == Outcome::Exits   /* writes to stdout: only on request (C13) */ { unimplemented!() }
 pub type LexoptError = lexopt::Error;
 
 // what the extension table says for a path (proved equal to the documented table by the Kani unit U-EXT)
